@@ -295,9 +295,14 @@ def gotran_to_myokit(ode: ODE, time_component="engine", time_unit="s") -> myokit
     # First we need to add all variables to the model
     # Note that the expressions of an ODE loaded from an .ode file contain the symbols
     # of the atoms (with assumptions), while an ODE imported from myokit contains plain symbols
+    # The new symbols are real. The substitution re-evaluates the expressions, and with
+    # complex symbols e.g. abs(exp(x)) would be rewritten in terms of re and im
+    def qsymbol(qname: str) -> sp.Symbol:
+        return sp.Symbol(qname, real=True)
+
     global_var_map = {
-        sp.Symbol("time"): sp.Symbol(f"{time_component}.time"),
-        ode.t: sp.Symbol(f"{time_component}.time"),
+        sp.Symbol("time"): qsymbol(f"{time_component}.time"),
+        ode.t: qsymbol(f"{time_component}.time"),
     }
     for component in ode.components:
         if component.name == time_component:
@@ -309,21 +314,21 @@ def gotran_to_myokit(ode: ODE, time_component="engine", time_unit="s") -> myokit
             state = state_derivative.state
             var = comp.add_variable(state.name)
             var.set_unit(to_myokit_unit(state.unit_str))
-            global_var_map[sp.Symbol(state.name)] = sp.Symbol(var.qname())
-            global_var_map[state.symbol] = sp.Symbol(var.qname())
+            global_var_map[sp.Symbol(state.name)] = qsymbol(var.qname())
+            global_var_map[state.symbol] = qsymbol(var.qname())
 
         for parameter in component.parameters:
             var = comp.add_variable(parameter.name)
             var.set_unit(to_myokit_unit(parameter.unit_str))
             var.set_rhs(parameter.value)
-            global_var_map[sp.Symbol(parameter.name)] = sp.Symbol(var.qname())
-            global_var_map[parameter.symbol] = sp.Symbol(var.qname())
+            global_var_map[sp.Symbol(parameter.name)] = qsymbol(var.qname())
+            global_var_map[parameter.symbol] = qsymbol(var.qname())
 
         for intermediate in component.intermediates:
             var = comp.add_variable(intermediate.name)
             var.set_unit(to_myokit_unit(intermediate.unit_str))
-            global_var_map[sp.Symbol(intermediate.name)] = sp.Symbol(var.qname())
-            global_var_map[intermediate.symbol] = sp.Symbol(var.qname())
+            global_var_map[sp.Symbol(intermediate.name)] = qsymbol(var.qname())
+            global_var_map[intermediate.symbol] = qsymbol(var.qname())
 
     sympy_reader = SymPyExpressionReader(model=model)
     # Then we can add expressions
